@@ -59,7 +59,7 @@ TD_MECH_PATH = {"decl:tern-lit": "decl-typedef-ternary", "decl:tern-else": "decl
 TYPE_TEXT = {"tiny": "tiny", "short": "short", "int": "int", "long": "long", "char": "char", "utiny": "unsigned tiny",
              "ushort": "unsigned short", "uint": "unsigned int", "ulong": "unsigned long"}
 
-KINDS = ["min-1", "min", "min+1", "-1", "0", "1", "max-1", "max", "max+1", "rand-in", "rand-above", "rand-below"]
+KINDS = ["min-1", "min", "min+1", "-1", "0", "1", "max-1", "max", "max+1", "rand-in", "rand-above", "rand-below", "ptr-like"]
 
 
 def values_for(t, rng):
@@ -71,6 +71,8 @@ def values_for(t, rng):
         vs["rand-above"] = rng.randint(hi + 1, min(I64[1], (hi + 1) * rng.choice([2, 256, 65536, 2**20])))
     else:
         vs["rand-above"] = None
+    # a value consume_numeric_typed_value (member_helpers.cpp) may take for an address: 2^32 .. 2^47-1 (both ends and the inside)
+    vs["ptr-like"] = rng.choice([2**32, 2**47 - 1, rng.randint(2**32, 2**47 - 1)])
     if lo > I64[0]:
         vs["rand-below"] = rng.randint(max(I64[0], (lo - 1) * rng.choice([2, 256, 65536, 2**20]) - 5), lo - 1)
     else:
@@ -505,7 +507,9 @@ def typedef_source(src, t):
 # ---------------------------------------------------------------------------------------------
 RAW_PATHS = ["multi-decl:lit", "multi-decl:first", "multi-decl:var", "multi-decl:call", "multi-decl:tern",
              "incdec-expr:post", "incdec-expr:pre", "neglit:decl", "neglit:assign", "elem1:param", "funcptr-arg:lit",
-             "arrlit-assign:1d", "arrlit-assign:2d", "arr-copy:assign", "arr-copy:param"]
+             "arrlit-assign:1d", "arrlit-assign:2d", "arr-copy:assign", "arr-copy:param",
+             "member:assign", "member:literal", "member:compound", "member:array-elem", "member:param", "member:generic",
+             "member-nested:assign", "member-nested:arrow", "deref:assign", "reference:assign", "reference:param"]
 
 
 def raw_build(path, t, v, rng):
@@ -585,6 +589,57 @@ def raw_build(path, t, v, rng):
             src = ("long f( %s[3] a ) {\n  println( ( 0 + a[ 1 ] ) ) ;\n  return ( 0 + a[ 2 ] ) ;\n}\n"
                    "void main() {\n  long[3] w = [ 0 , %s , 0 ] ;\n  println( f( w ) ) ;\n}\n" % (T, lit(v)))
         return src, "store arr-copy %s %d" % (t, v), [0]
+    if p == "member":
+        # member_assignment.cpp / managers/structs/assignment.cpp: the unsigned clamp only (finding C04-struct-member-unchecked)
+        q = "store member %s %d" % (t, v)
+        if how == "assign":
+            src = ("struct S { %s m ; long pad ; } ;\nvoid main() {\n  S s ;\n  s.m = %s ;\n  println( ( s.m + 0 ) ) ;\n"
+                   "  println( s.pad ) ;\n}\n" % (T, lit(v)))
+            return src, q, [0]
+        if how == "literal":
+            src = ("struct S { long pad ; %s m ; } ;\nvoid main() {\n  S s = { 7 , %s } ;\n  println( ( s.m + 0 ) ) ;\n"
+                   "  println( s.pad ) ;\n}\n" % (T, lit(v)))
+            return src, q, [7]
+        if how == "compound":
+            r = compound_operands("add", t, v, rng)
+            if r is None:
+                return None
+            start, op, operand = r
+            src = ("struct S { %s m ; long pad ; } ;\nvoid main() {\n  S s ;\n  s.m = %s ;\n  s.m %s= %s ;\n  println( ( s.m + 0 ) ) ;\n"
+                   "  println( s.pad ) ;\n}\n" % (T, lit(start), op, lit(operand)))
+            return src, q, [0]
+        if how == "array-elem":
+            src = ("struct S { %s[3] a ; long pad ; } ;\nvoid main() {\n  S s ;\n  s.a[ 1 ] = %s ;\n  println( ( 0 + s.a[ 1 ] ) ) ;\n"
+                   "  println( ( 0 + s.a[ 2 ] ) ) ;\n}\n" % (T, lit(v)))
+            return src, q, [0]
+        if how == "param":
+            src = ("struct S { %s m ; long pad ; } ;\nlong f( S s , long x ) {\n  s.m = x ;\n  return ( s.m + 0 ) ;\n}\n"
+                   "void main() {\n  S s ;\n  println( f( s , %s ) ) ;\n}\n" % (T, lit(v)))
+            return src, q, []
+        if how == "generic":
+            if t.startswith("u"):
+                return None
+            src = "struct Box<T> { T v ; } ;\nvoid main() {\n  Box<%s> b ;\n  b.v = %s ;\n  println( ( b.v + 0 ) ) ;\n}\n" % (T, lit(v))
+            return src, "store member-generic %s %d" % (t, v), []
+    if p == "member-nested":
+        # a member of a nested struct and a member reached through `->`: Variable::value is written directly, not even the clamp
+        q = "store member-nested %s %d" % (t, v)
+        if how == "assign":
+            src = ("struct I { %s m ; } ;\nstruct O { I in ; long pad ; } ;\nvoid main() {\n  O o ;\n  o.in.m = %s ;\n"
+                   "  println( ( o.in.m + 0 ) ) ;\n  println( o.pad ) ;\n}\n" % (T, lit(v)))
+            return src, q, [0]
+        src = ("struct S { %s m ; long pad ; } ;\nvoid main() {\n  S s ;\n  S* p = &s ;\n  p->m = %s ;\n  println( ( s.m + 0 ) ) ;\n"
+               "  println( s.pad ) ;\n}\n" % (T, lit(v)))
+        return src, q, [0]
+    if p == "deref":
+        src = "void main() {\n  %s b = 1 ;\n  %s* p = &b ;\n  *p = %s ;\n%s}\n" % (T, T, lit(v), rb)
+        return src, "store deref %s %d" % (t, v), []
+    if p == "reference":
+        if how == "assign":
+            src = "void main() {\n  %s b = 1 ;\n  %s& q = b ;\n  q = %s ;\n%s}\n" % (T, T, lit(v), rb)
+        else:
+            src = "void f( %s& q , long x ) {\n  q = x ;\n}\nvoid main() {\n  %s b = 1 ;\n  f( b , %s ) ;\n%s}\n" % (T, T, lit(v), rb)
+        return src, "store reference %s %d" % (t, v), []
     raise ValueError(path)
 
 
